@@ -332,8 +332,11 @@ def omapBottomUp (extras : Bool) (f : OExpr → OExpr) : OExpr → OExpr
   | .nodeTag e t => if extras then f (.nodeTag (omapBottomUp extras f e) t) else f (.nodeTag e t)
   | e => f e
 
+/-- `restorer::restore_on_err` (after the fix: a `WHITESPACE`/`COMMENT` body that modifies the stack is
+wrapped as a whole — the implicit skips that attempt it are not in the AST). -/
 def restoreOnErr (extras : Bool) (rules : List ORule) (r : ORule) : ORule :=
-  { r with expr := omapBottomUp extras (wrapBranching extras rules) r.expr }
+  let e := omapBottomUp extras (wrapBranching extras rules) r.expr
+  { r with expr := if (r.name = "WHITESPACE" ∨ r.name = "COMMENT") ∧ modifies extras rules e = true then .restoreOnErr e else e }
 
 /-! ### `optimize` -/
 
